@@ -212,8 +212,13 @@ def calls_method(node: cfgm.Node, name: str, on_self: bool = True) -> list[ast.C
   out = []
   for x in cfgm.node_exprs(node):
     if isinstance(x, ast.Call) and isinstance(x.func, ast.Attribute) and (
-        x.func.attr == name):
+        x.func.attr == name or (name in _ATTEMPTS and x.func.attr.lstrip('_') == name)):
       if not on_self or (isinstance(x.func.value, ast.Name)
                          and x.func.value.id == 'self'):
         out.append(x)
   return out
+
+
+# the non-blocking attempts exist as a public method (which wakes the other side itself) and possibly as
+# an internal raw twin (`_put_nowait`) the blocking methods call; both are "the attempt" for the rules
+_ATTEMPTS = ('put_nowait', 'get_nowait')
